@@ -109,6 +109,7 @@ type World struct {
 	FreshOpens   int
 	TablesDecoded int
 	Crashed      map[int]bool
+	Excused      map[string]bool // files whose unlink failed with an injected error
 	ViewChecks   int
 	HistOps      int
 	LinUnknown   bool
@@ -130,7 +131,7 @@ func NewWorld(dir string, gcfg gen.Cfg) *World {
 		lockFiles: map[lockKey][]byte{},
 		tableOK: map[string]bool{}, Sites: map[string]bool{}, DirStates: map[string]bool{}, Contention: map[string]bool{},
 		ViewVersions: map[int]bool{},
-		Crashed: map[int]bool{}, active: map[int]bool{}, Want: map[string]bool{}}
+		Crashed: map[int]bool{}, Excused: map[string]bool{}, active: map[int]bool{}, Want: map[string]bool{}}
 	return w
 }
 
@@ -248,6 +249,12 @@ func (w *World) PostOp(s *vos.Sched, op *vos.Op) {
 			w.lockFiles[lockKey{op.Proc, op.Path}] = append([]byte(nil), op.File.Written...)
 		}
 	case "remove":
+		if !ok && op.Fault != nil {
+			// an unlink that failed with an injected error legitimately leaves the
+			// file behind: nobody owes its removal any more
+			delete(w.owned, op.Path)
+			w.Excused[op.Path] = true
+		}
 		if ok {
 			if strings.HasSuffix(cls, "lock") {
 				w.LockRemoves++
@@ -640,6 +647,9 @@ func (w *World) Quiescence(when string) {
 		p := filepath.Join(w.Dir, n)
 		if owner, ok := w.owned[p]; ok && w.Crashed[owner] {
 			continue // leftovers of a crashed process are allowed to stay
+		}
+		if w.Excused[p] {
+			continue // its unlink failed with an injected error
 		}
 		if w.anyCrashed() && ownerUnknown(w, p) {
 			continue
